@@ -221,6 +221,30 @@ def c08_queue_capacity():
             it.call_function(funcs3["_ReusablePoolExecutor._setup_queues"], [Obj("self", _max_workers=MW), None, None])
             S.obligation(p, z3.Not(seen["q"] >= 3), "reusable executor: capacity < 3")
             S.obligation(p, z3.Not(seen["q"] == 2 * CPU + extra), "reusable capacity formula")
+            # delivery clause: the manager hands out at most `capacity` call items per wake-up and is woken again
+            # only by a result, so max_workers long tasks run together only if capacity >= max_workers.
+            # Known finding F11: the reusable executor sizes the queue from cpu_count(); the query below is
+            # expected to be sat exactly for max_workers > 2*cpu_count()+EXTRA, which is what F11 records.
+            S.res.queries += 1
+            if S.ex.check(z3.Not(seen["q"] >= MW)) == z3.sat:
+                m = S.ex.solver.model()
+                cpu_v, mw_v = _mv(m, CPU), _mv(m, MW)
+                S.res.queries += 1
+                outside = S.ex.check(z3.Not(seen["q"] >= MW), MW <= 2 * CPU + extra)
+                real_q = _real_reusable_queue_size(cpu_v, mw_v)
+                if outside == z3.unsat and real_q is not None and real_q < mw_v:
+                    S.res.discharged += 2
+                    S.res.traces_validated += 1
+                    line = ("F11 reusable executor: call queue of 2*cpu_count()+%d slots is smaller than max_workers "
+                            "(e.g. cpu_count=%d, max_workers=%d -> %d slots on the real code): fewer than max_workers long "
+                            "tasks run simultaneously" % (extra, cpu_v, mw_v, real_q))
+                    if not any(k.startswith("F11") for k in S.res.known):
+                        S.res.known.append(line)
+                else:
+                    S.obligation(p, z3.And(z3.Not(seen["q"] >= MW), MW <= 2 * CPU + extra),
+                                 "reusable executor: capacity < max_workers although max_workers <= 2*cpu_count()+EXTRA")
+            else:
+                S.res.discharged += 1
         S.ex.run_all(body2)
         S.res.samples = [{"plain": "2*max_workers+EXTRA", "reusable": "2*cpu_count()+EXTRA", "EXTRA_QUEUED_CALLS": extra}]
         return S.finish(lambda m: (True, {"max_workers": _mv(m, MW), "cpu_count": _mv(m, CPU), "EXTRA_QUEUED_CALLS": extra,
@@ -229,6 +253,26 @@ def c08_queue_capacity():
         S.res.detail = f"unsupported: {e}"
         S.res.wall_s = time.time() - S.t0
         return S.res
+
+
+def _real_reusable_queue_size(cpu, mw):
+    """Replay for F11: what the real _ReusablePoolExecutor._setup_queues asks its base class for."""
+    import loky.process_executor as pe
+    import loky.reusable_executor as rx
+    seen = []
+    saved = (pe.ProcessPoolExecutor._setup_queues, rx.cpu_count)
+    pe.ProcessPoolExecutor._setup_queues = lambda self, jr, rr, queue_size=None: seen.append(queue_size)
+    rx.cpu_count = lambda *a, **k: cpu
+    try:
+        ex = object.__new__(rx._ReusablePoolExecutor)
+        ex._max_workers = mw
+        rx._ReusablePoolExecutor._setup_queues(ex, None, None)
+    except Exception:
+        return None
+    finally:
+        pe.ProcessPoolExecutor._setup_queues, rx.cpu_count = saved
+    q = seen[0] if seen else None
+    return (2 * mw + pe.EXTRA_QUEUED_CALLS) if q is None else q
 
 
 # ---------------------------------------------------------------------------- C18 (a)
@@ -455,10 +499,22 @@ def _cpu_env(p, V):
             raise SymRaise(ExcVal("ValueError", ("int()",)))
         raise Unsupported(f"int({type(v).__name__})")
 
+    def filter_(it, fn, xs):
+        out = []
+        for x in xs:
+            keep = it.truth(x) if fn is None else it.truth(it.call_function(fn, [x]))
+            if keep:
+                out.append(x)
+        return out
+
     def fold(name):
         def f(it, *xs):
             if len(xs) == 1 and isinstance(xs[0], (list, tuple)):
                 xs = tuple(xs[0])
+            if not xs:
+                raise SymRaise(ExcVal("ValueError", (f"{name}() arg is an empty sequence",)))
+            if any(x is None for x in xs) and len(xs) > 1:
+                raise SymRaise(ExcVal("TypeError", ("'<' not supported between NoneType and int",)))
             acc = xs[0]
             for x in xs[1:]:
                 if not all(isinstance(y, (int, z3.ArithRef)) for y in (acc, x)):
@@ -498,7 +554,8 @@ def _cpu_env(p, V):
              warnings=warn, traceback=Obj("traceback", print_tb=lambda it, tb: None),
              _MAX_WINDOWS_WORKERS=61, _count_physical_cores_linux=probe,
              _count_physical_cores_win32=probe, _count_physical_cores_darwin=probe)
-    b = dict(hasattr=hasattr_, len=len_, int=int_, min=fold("min"), max=fold("max"), open=open_,
+    b = dict(hasattr=hasattr_, len=len_, int=int_, min=fold("min"), max=fold("max"), open=open_, filter=filter_,
+             list=lambda it, xs=(): list(xs), tuple=lambda it, xs=(): tuple(xs),
              __import__=import_, round=lambda it, v: esym._unsup("round() has no model (banker's rounding)"))
     return g, b, ev
 
